@@ -1,10 +1,17 @@
 package client
 
 import (
+	"errors"
+
 	pkts "github.com/energomonitor/bisquitt/packets"
 	pkts1 "github.com/energomonitor/bisquitt/packets1"
 	"github.com/energomonitor/bisquitt/transactions"
+	"github.com/energomonitor/bisquitt/util"
 )
+
+// errPingAbandoned ends a ping exchange which was not answered before the
+// client left the active state.
+var errPingAbandoned = errors.New("ping abandoned: client is not active")
 
 type pingTransaction struct {
 	*transaction
@@ -18,6 +25,11 @@ func newPingTransaction(client *Client) *pingTransaction {
 			RetryTransaction: transactions.NewRetryTransaction(
 				client.groupCtx, client.cfg.RetryDelay, client.cfg.RetryCount,
 				func(lastPkt interface{}) error {
+					// No PINGREQ is retransmitted once the client has fallen asleep
+					// or has been disconnected.
+					if client.state.Get() != util.StateActive {
+						return errPingAbandoned
+					}
 					tLog.Debug("Resend.")
 					return client.send(lastPkt.(pkts.Packet))
 				},
